@@ -82,8 +82,12 @@ Proof.
   destruct Hin as [->|Hin]; eauto.
 Qed.
 
+Lemma not_number_none : forall v, is_number v = false -> as_u64 v = None /\ as_i64 v = None.
+Proof. intros v H. destruct v; try discriminate H; split; reflexivity. Qed.
+
 (* ------------------------------------------------------------------ one level *)
 Section Step.
+  Variable re : ustring -> ustring -> bool.
   Variable T : space.
   Variable vrec : id -> json -> res kind.
   Variable aprops : prop -> res (list pinfo).
@@ -198,7 +202,7 @@ Section Step.
   Qed.
 
   Lemma det_step : forall d v k,
-    validate_det true T vrec aprops d v = ROk k -> output_det T orec d v <> RErr.
+    validate_det re T vrec aprops d v = ROk k -> output_det T orec d v <> RErr.
   Proof.
     intros d v k H. destruct d; cbn [validate_det] in H; cbn [output_det].
     - (* enum *) destruct tag.
@@ -249,8 +253,10 @@ Section Step.
       exact (tuple_step _ _ _ H E).
     - (* unit *) destruct v; try discriminate H; discriminate.
     - (* boolean *) destruct v; try discriminate H; discriminate.
-    - (* integer *) destruct v; cbn in H; try discriminate H. cbn.
-      destruct (is_nonzero_name name); discriminate.
+    - (* integer *) destruct (is_number v) eqn:En.
+      + cbn. destruct (is_nonzero_name name); discriminate.
+      + exfalso. destruct (not_number_none v En) as [A B]. rewrite A, B in H.
+        destruct (negb (integer_fits name v)); discriminate H.
     - (* float *) revert H. destruct (is_number v); intro H; [|discriminate H]. cbn.
       destruct (is_nonzero_name name); discriminate.
     - (* string *) destruct v; try discriminate H; discriminate.
@@ -259,34 +265,50 @@ Section Step.
   Qed.
 End Step.
 
-(* validation with the repaired String arm never lets output_value return None *)
-Lemma strict_validate_implies_output : forall T f t v k,
-  validate_strict T f t v = ROk k -> output_value T f t v <> RErr.
+(* successful validation never lets output_value return None (the value to_stream() unwraps) *)
+Lemma validate_implies_output : forall re T f t v k,
+  validate_value re T f t v = ROk k -> output_value T f t v <> RErr.
 Proof.
-  intros T f. induction f as [|n IHn]; intros t v k H; cbn in H; [discriminate|].
-  cbn. unfold validate_strict in H. cbn in H.
-  destruct (get_det T t) as [d|]; [|discriminate].
+  intros re T f. induction f as [|n IHn]; intros t v k H; cbn in H; [discriminate|].
+  cbn. destruct (get_det T t) as [d|]; [|discriminate].
   eapply det_step; [|exact H].
   intros t' v' k' Hk. exact (IHn t' v' k' Hk).
 Qed.
 
-(* class of finding C06-F1: the verdict depends on the String arm accepting non-strings *)
-Definition Known_F1 (T : space) (f : nat) (t : id) (d : json) : Prop :=
-  validate_value T f t d <> validate_strict T f t d.
-
-Lemma res_kind_dec : forall a b : res kind, {a = b} + {a <> b}.
-Proof. decide equality. decide equality. decide equality. Qed.
-
-Lemma validate_implies_output : forall T f t d k,
-  validate_value T f t d = ROk k -> ~ Known_F1 T f t d -> output_value T f t d <> RErr.
+(* ------------------------------------------------------------------ repaired checks *)
+(* fix 9117497: a validated newtype default satisfies the newtype's constraints *)
+Lemma newtype_default_checked : forall re T f t name def inner c d k,
+  get_det T t = Some (DNewtype name def inner c) ->
+  validate_value re T (S f) t d = ROk k -> constraint_ok re c d = true.
 Proof.
-  intros T f t d k H Hn.
-  destruct (res_kind_dec (validate_value T f t d) (validate_strict T f t d)) as [E|N].
-  - rewrite H in E. symmetry in E. exact (strict_validate_implies_output _ _ _ _ _ E).
-  - exfalso. exact (Hn N).
+  intros re T f t name def inner c d k Hg H. cbn [validate_value] in H. rewrite Hg in H. cbn [validate_det] in H.
+  apply rbind_ok in H. destruct H as [k' [_ H]]. destruct (constraint_ok re c d); [reflexivity|discriminate H].
 Qed.
 
-(* ------------------------------------------------------------------ witnesses (faithful model refutes) *)
+(* fix 07af100: a validated integer default fits the Rust integer type (and is non-zero for NonZero) *)
+Lemma integer_default_fits : forall re T f t name d k,
+  get_det T t = Some (DInteger name) ->
+  validate_value re T (S f) t d = ROk k ->
+  integer_fits name d = true /\ exists z, d = JInt z.
+Proof.
+  intros re T f t name d k Hg H. cbn [validate_value] in H. rewrite Hg in H. cbn [validate_det] in H.
+  destruct (integer_fits name d); [|discriminate H]. split; [reflexivity|].
+  cbn [negb] in H. destruct d; cbn in H; try discriminate H. eauto.
+Qed.
+
+(* fix 9891d21: a validated string default is a JSON string *)
+Lemma string_default_is_string : forall re T f t d k,
+  get_det T t = Some DString -> validate_value re T (S f) t d = ROk k -> exists s, d = JStr s.
+Proof.
+  intros re T f t d k Hg H. cbn [validate_value] in H. rewrite Hg in H. cbn [validate_det] in H.
+  destruct d; try discriminate H. eauto.
+Qed.
+
+(* fix cd15928: a unit-typed property with default null is Optional, so default_fn (unreachable!() on Unit) is never asked *)
+Lemma unit_null_optional : has_default (Some DUnit) (Some JNull) = POptional.
+Proof. reflexivity. Qed.
+
+(* ------------------------------------------------------------------ regression examples (former witnesses) *)
 Definition ent (d : details) : entry := mkEntry d [].
 Definition mk_space (es : list (id * entry)) : space :=
   mkSpace es 100 (mkSettings None [] false []) false false false false [].
@@ -304,75 +326,27 @@ Definition Tw : space := mk_space [
   (10, ent (DStruct (u "W") None [mkProp (u "k") TypeIR.RNone PRequired 2; mkProp (u "extra") RFlatten PRequired 9] false));
   (11, ent (DNewtype (u "IEnum") None 2 (CEnum [JInt 1; JInt 2])))
 ]%N.
+Definition re0 (p s : ustring) : bool := false.
 
-Lemma validate_implies_output_refuted :
-  exists T f t d k, validate_value T f t d = ROk k /\ output_value T f t d = RErr /\ Known_F1 T f t d.
+Lemma regression_examples :
+  validate_value re0 Tw 3 1 (JInt 5) = RErr /\                                   (* F1 *)
+  validate_value re0 Tw 3 6 (JArr [JInt 300]) = RErr /\                          (* F5 *)
+  validate_value re0 Tw 3 7 (JStr (u "toolong")) = RErr /\                       (* F3 *)
+  validate_value re0 Tw 3 11 (JInt 7) = RErr /\                                  (* F3 *)
+  validate_value re0 Tw 3 8 (JInt 0) = RErr /\                                   (* F6 *)
+  (exists e, output_value Tw 3 3 (JArr [JInt 3]) = ROk e /\ expr_typed Tw 3 e 3 = true) /\          (* F2 *)
+  (exists e, output_value Tw 4 10 (JObj [(u "k", JInt 1)]) = ROk e /\ expr_typed Tw 4 e 10 = true). (* F8 *)
 Proof.
-  exists Tw, 3%nat, 1, (JInt 5), KSpecific. split; [vm_compute; reflexivity|]. split; [vm_compute; reflexivity|].
-  unfold Known_F1. vm_compute. discriminate.
-Qed.
-
-Lemma unit_default_render_refuted :
-  exists T f t d k, validate_value T f t d = ROk k /\ render_prop_default T f t d = RPanic.
-Proof. exists Tw, 3%nat, 4, JNull, KIntrinsic. split; vm_compute; reflexivity. Qed.
-
-Lemma default_typed_tuple1_refuted :
-  exists T f t d k e, validate_value T f t d = ROk k /\ ~ Known_F1 T f t d /\
-                      output_value T f t d = ROk e /\ expr_typed T f e t = false /\ expr_any is_tuple1 e = true.
-Proof.
-  exists Tw, 3%nat, 3, (JArr [JInt 3]), KSpecific, (ETuple [ENum (JInt 3) (u "i64")]).
-  split; [vm_compute; reflexivity|]. split; [unfold Known_F1; vm_compute; intro H; apply H; reflexivity|].
-  split; [vm_compute; reflexivity|]. split; vm_compute; reflexivity.
-Qed.
-
-Lemma default_typed_int_range_refuted :
-  exists T f t d k e, validate_value T f t d = ROk k /\ ~ Known_F1 T f t d /\
-                      output_value T f t d = ROk e /\ expr_typed T f e t = false /\ expr_any is_int_oob e = true.
-Proof.
-  exists Tw, 3%nat, 6, (JArr [JInt 300]), KSpecific, (EVec [ENum (JInt 300) (u "u8")]).
-  split; [vm_compute; reflexivity|]. split; [unfold Known_F1; vm_compute; intro H; apply H; reflexivity|].
-  split; [vm_compute; reflexivity|]. split; vm_compute; reflexivity.
-Qed.
-
-Lemma default_typed_flatten_refuted :
-  exists T f t d k e, validate_value T f t d = ROk k /\ ~ Known_F1 T f t d /\
-                      output_value T f t d = ROk e /\ expr_typed T f e t = false /\ expr_any has_flit e = true.
-Proof.
-  exists Tw, 4%nat, 10, (JObj [(u "k", JInt 1)]), KSpecific,
-    (EStruct (u "W") [(FId (u "k"), ENum (JInt 1) (u "i64")); (FLit (u "extra"), EMap [])]).
-  split; [vm_compute; reflexivity|]. split; [unfold Known_F1; vm_compute; intro H; apply H; reflexivity|].
-  split; [vm_compute; reflexivity|]. split; vm_compute; reflexivity.
-Qed.
-
-Lemma default_exact_nonzero_refuted :
-  exists T f t d k e, validate_value T f t d = ROk k /\ output_value T f t d = ROk e /\
-                      expr_typed T f e t = true /\ eval_expr T e = None /\ expr_any is_nz_zero e = true.
-Proof.
-  exists Tw, 3%nat, 8, (JInt 0), KIntrinsic, (ENonZero (u "::std::num::NonZeroU32") (JInt 0)).
-  repeat split; vm_compute; reflexivity.
-Qed.
-
-Lemma invalid_rejected_newtype_refuted :
-  exists T f t d k name def inner c,
-    get_det T t = Some (DNewtype name def inner c) /\ constraint_ok c d = false /\ validate_value T f t d = ROk k.
-Proof.
-  exists Tw, 3%nat, 7, (JStr (u "toolong")), KSpecific, (u "S3"), None, 1, (CString (Some 3) None None).
-  repeat split; vm_compute; reflexivity.
-Qed.
-
-Lemma invalid_rejected_newtype_enum_refuted :
-  exists T f t d k name def inner c,
-    get_det T t = Some (DNewtype name def inner c) /\ constraint_ok c d = false /\ validate_value T f t d = ROk k.
-Proof.
-  exists Tw, 3%nat, 11, (JInt 7), (KGeneric GU64), (u "IEnum"), None, 2, (CEnum [JInt 1; JInt 2]).
-  repeat split; vm_compute; reflexivity.
+  repeat split; try (vm_compute; reflexivity).
+  - eexists. split; vm_compute; reflexivity.
+  - eexists. split; vm_compute; reflexivity.
 Qed.
 
 (* ------------------------------------------------------------------ invalid shapes are rejected *)
-Lemma invalid_rejected_scalar : forall T f t det d,
-  get_det T t = Some det -> shape_mismatch det d = true -> validate_value T (S f) t d = RErr.
+Lemma invalid_rejected_scalar : forall re T f t det d,
+  get_det T t = Some det -> shape_mismatch det d = true -> validate_value re T (S f) t d = RErr.
 Proof.
-  intros T f t det d Hg Hs. unfold validate_value. cbn [validate_gen]. rewrite Hg.
+  intros re T f t det d Hg Hs. cbn [validate_value]. rewrite Hg.
   destruct det; cbn [shape_mismatch] in Hs; try discriminate Hs; cbn [validate_det].
   - (* struct *) destruct d; try discriminate Hs; reflexivity.
   - (* vec *) destruct d; try discriminate Hs; reflexivity.
@@ -382,53 +356,263 @@ Proof.
   - (* tuple *) unfold v_tuple. destruct d; try discriminate Hs; try reflexivity. cbn. rewrite Hs. reflexivity.
   - (* unit *) destruct d; try discriminate Hs; reflexivity.
   - (* boolean *) destruct d; try discriminate Hs; reflexivity.
-  - (* integer *) destruct (as_u64 d); [discriminate Hs|]. destruct (as_i64 d); [discriminate Hs|]. reflexivity.
+  - (* integer *) destruct (as_u64 d); [discriminate Hs|]. destruct (as_i64 d); [discriminate Hs|].
+    destruct (negb (integer_fits name d)); reflexivity.
   - (* float *) destruct (is_number d); [discriminate Hs|]. reflexivity.
 Qed.
 
-(* ------------------------------------------------------------------ typing / exactness on the scalar kinds *)
-Definition scalar_det (d : details) : bool :=
-  match d with DBoolean | DString | DUnit | DFloat _ | DInteger _ => true | _ => false end.
-
-(* the integer literal fits the Rust type (what finding C06-F5 / F6 are about) *)
-Definition int_fits (det : details) (d : json) : bool :=
-  match det with
-  | DInteger n => if is_nonzero_name n then nz_arg_ok n d && negb (is_zero_number d) else lit_in_range n d
-  | DFloat n => negb (is_nonzero_name n)
-  | _ => true
-  end.
+(* ------------------------------------------------------------------ integer literals of the known Rust types *)
+Definition known_int_names : list ustring :=
+  map ustr_of_string ["u8"; "u16"; "u32"; "u64"; "i8"; "i16"; "i32"; "i64";
+                      "::std::num::NonZeroU8"; "::std::num::NonZeroU16"; "::std::num::NonZeroU32";
+                      "::std::num::NonZeroU64"]%string.
+Definition known_int (n : ustring) : bool := existsb (ustr_eqb n) known_int_names.
 
 Lemma ustr_eqb_refl : forall s, ustr_eqb s s = true.
 Proof. induction s as [|c s IH]; cbn; [reflexivity|]. rewrite N.eqb_refl. exact IH. Qed.
 
-Lemma scalar_typed_exact : forall T f t det d k,
-  get_det T t = Some det -> scalar_det det = true -> int_fits det d = true ->
-  validate_strict T (S f) t d = ROk k ->
-  exists e r, output_value T (S f) t d = ROk e /\ expr_typed T (S f) e t = true /\
-              eval_expr T e = Some r /\ approx d r = true.
+Lemma ustr_eqb_eq : forall a b, ustr_eqb a b = true -> a = b.
 Proof.
-  intros T f t det d k Hg Hs Hi Hv. unfold validate_strict in Hv. cbn [validate_gen] in Hv. rewrite Hg in Hv.
+  induction a as [|x a IH]; destruct b as [|y b]; cbn; intro H; try discriminate H; [reflexivity|].
+  apply andb_true_iff in H. destruct H as [H1 H2]. apply N.eqb_eq in H1. subst. f_equal. exact (IH _ H2).
+Qed.
+
+Definition int_lit_ok (n : ustring) (z : Z) : bool :=
+  if is_nonzero_name n then nz_arg_ok n (JInt z) && negb (Z.eqb z 0) else lit_in_range n (JInt z).
+
+Local Transparent is_nonzero_name.
+Lemma known_int_lit : forall n, In n known_int_names -> forall z,
+  (as_u64 (JInt z) <> None \/ as_i64 (JInt z) <> None) -> integer_fits n (JInt z) = true -> int_lit_ok n z = true.
+Proof.
+  intros n Hin. cbn [known_int_names map] in Hin.
+  repeat (destruct Hin as [<-|Hin]; [
+    intros z Hs Hf; unfold integer_fits in Hf; unfold int_lit_ok, lit_in_range, nz_arg_ok;
+    match type of Hf with context [int_table ?a] =>
+      let r := eval vm_compute in (int_table a) in change (int_table a) with r in Hf end;
+    match type of Hf with context [is_nonzero_name ?a] =>
+      let r := eval vm_compute in (is_nonzero_name a) in change (is_nonzero_name a) with r in Hf end;
+    match goal with |- context [is_nonzero_name ?a] =>
+      let r := eval vm_compute in (is_nonzero_name a) in change (is_nonzero_name a) with r end;
+    match goal with |- context [int_range_u ?a] =>
+      let r := eval vm_compute in (int_range_u a) in change (int_range_u a) with r end;
+    cbv beta iota in Hf |- *;
+    unfold as_u64, as_i64 in Hf, Hs;
+    destruct ((0 <=? z) && (z <? 18446744073709551616))%Z;
+    destruct ((-9223372036854775808 <=? z) && (z <? 9223372036854775808))%Z;
+    cbn [andb negb] in Hf |- *;
+    try (destruct Hs as [Hs|Hs]; exfalso; apply Hs; reflexivity);
+    try exact Hf;
+    try (rewrite andb_true_r in Hf; exact Hf)
+  |]).
+  destruct Hin.
+Qed.
+Local Opaque is_nonzero_name.
+
+(* ------------------------------------------------------------------ typing on the structural fragment *)
+(* types built from bool / known integers / floats / string / unit by Option, Box, Vec, Set, fixed
+   arrays, tuples (ANY arity, incl. one) and newtypes (any constraints) *)
+Fixpoint frag (T : space) (fuel : nat) (t : id) {struct fuel} : bool :=
+  match fuel with
+  | O => false
+  | S n =>
+      match get_det T t with
+      | Some DBoolean | Some DString | Some DUnit => true
+      | Some (DInteger nm) => known_int nm
+      | Some (DFloat nm) => negb (is_nonzero_name nm)
+      | Some (DOption x) | Some (DBox x) | Some (DVec x) | Some (DSet x) | Some (DArray x _)
+      | Some (DNewtype _ _ x _) => frag T n x
+      | Some (DTuple ts) => forallb (frag T n) ts
+      | _ => false
+      end
+  end.
+
+Lemma frag_get : forall T n t, frag T n t = true -> exists d, get_det T t = Some d.
+Proof. intros T n t H. destruct n; cbn in H; [discriminate|]. destruct (get_det T t); [eauto|discriminate]. Qed.
+
+Section Typed.
+  Variable T : space.
+  Variable g : nat.
+
+  Lemma typed_vec : forall t x es, get_det T t = Some (DVec x) ->
+    Forall (fun e => expr_typed T g e x = true) es -> expr_typed T g (EVec es) t = true.
+  Proof.
+    intros t x es Hg H. cbn [expr_typed]. rewrite Hg. induction H as [|e es He _ IH]; [reflexivity|].
+    cbn. rewrite He. exact IH.
+  Qed.
+
+  Lemma typed_set : forall t x es, get_det T t = Some (DSet x) ->
+    Forall (fun e => expr_typed T g e x = true) es -> expr_typed T g (EVec es) t = true.
+  Proof.
+    intros t x es Hg H. cbn [expr_typed]. rewrite Hg. induction H as [|e es He _ IH]; [reflexivity|].
+    cbn. rewrite He. exact IH.
+  Qed.
+
+  Lemma typed_array : forall t x n es, get_det T t = Some (DArray x n) -> N.of_nat (length es) = n ->
+    Forall (fun e => expr_typed T g e x = true) es -> expr_typed T g (EArray es) t = true.
+  Proof.
+    intros t x n es Hg Hl H. cbn [expr_typed]. rewrite Hg. rewrite Hl, N.eqb_refl. cbn [andb].
+    clear Hl. induction H as [|e es He _ IH]; [reflexivity|]. cbn. rewrite He. exact IH.
+  Qed.
+
+  Lemma typed_tuple : forall t ts es, get_det T t = Some (DTuple ts) ->
+    Forall2 (fun x e => expr_typed T g e x = true) ts es -> expr_typed T g (ETuple es) t = true.
+  Proof.
+    intros t ts es Hg H. cbn [expr_typed]. rewrite Hg. clear Hg. induction H as [|x e ts es He _ IH]; [reflexivity|].
+    cbn. rewrite He. cbn [andb]. exact IH.
+  Qed.
+End Typed.
+
+Lemma map_r_forall : forall (P : expr -> Prop) (orec : json -> res expr) l,
+  (forall x, In x l -> exists e, orec x = ROk e /\ P e) ->
+  exists es, map_r orec l = ROk es /\ Forall P es /\ length es = length l.
+Proof.
+  intros P orec l. induction l as [|y l IH]; intros H.
+  - exists []. repeat split. constructor.
+  - destruct (H y (or_introl eq_refl)) as [e [He Pe]].
+    destruct (IH (fun x Hx => H x (or_intror Hx))) as [es [Hes [Pes Hl]]].
+    exists (e :: es). cbn. rewrite He. cbn. rewrite Hes. cbn. repeat split; [constructor; assumption|congruence].
+Qed.
+
+Lemma map_r_forall2 : forall (P : id -> expr -> Prop) (orec : id -> json -> res expr) ts arr,
+  length arr = length ts ->
+  (forall p, In p (combine ts arr) -> exists e, orec (fst p) (snd p) = ROk e /\ P (fst p) e) ->
+  exists es, map_r (fun '(t, x) => orec t x) (combine ts arr) = ROk es /\ Forall2 P ts es.
+Proof.
+  intros P orec ts. induction ts as [|t ts IH]; intros arr Hl H.
+  - destruct arr; [|discriminate Hl]. exists []. split; [reflexivity|constructor].
+  - destruct arr as [|x arr]; [discriminate Hl|]. cbn in Hl. injection Hl as Hl.
+    destruct (H (t, x) (or_introl eq_refl)) as [e [He Pe]]. cbn in He, Pe.
+    destruct (IH arr Hl (fun p Hp => H p (or_intror Hp))) as [es [Hes Pes]].
+    exists (e :: es). cbn. rewrite He. cbn. rewrite Hes. cbn. split; [reflexivity|constructor; assumption].
+Qed.
+
+Lemma in_combine_forallb : forall (f : id -> bool) ts (arr : list json) p,
+  forallb f ts = true -> In p (combine ts arr) -> f (fst p) = true.
+Proof.
+  intros f ts arr p Hf Hin. destruct p as [t x]. apply in_combine_l in Hin.
+  rewrite forallb_forall in Hf. exact (Hf t Hin).
+Qed.
+
+(* validated defaults of the fragment are rendered to a well-typed Rust expression *)
+Lemma frag_typed : forall re T g f t d k,
+  validate_value re T f t d = ROk k -> frag T f t = true ->
+  exists e, output_value T f t d = ROk e /\ expr_typed T g e t = true.
+Proof.
+  intros re T g f. induction f as [|n IH]; intros t d k H Hf; [discriminate H|].
+  cbn [validate_value] in H. cbn [frag] in Hf. cbn [output_value].
+  destruct (get_det T t) as [det|] eqn:Hg; [|discriminate H].
+  destruct det; try discriminate Hf; cbn [validate_det] in H; cbn [output_det].
+  - (* newtype *)
+    apply rbind_ok in H. destruct H as [k' [Hk _]].
+    destruct (IH _ _ _ Hk Hf) as [e [He Te]]. rewrite He. cbn.
+    eexists. split; [reflexivity|]. cbn [expr_typed]. rewrite Hg, ustr_eqb_refl, Te. reflexivity.
+  - (* option *)
+    destruct d; try (apply rbind_ok in H; destruct H as [k' [Hk _]];
+                     destruct (IH _ _ _ Hk Hf) as [e [He Te]]; rewrite He; cbn;
+                     eexists; split; [reflexivity|]; cbn [expr_typed]; rewrite Hg; exact Te).
+    eexists. split; [reflexivity|]. cbn [expr_typed]. rewrite Hg. reflexivity.
+  - (* box *)
+    destruct (IH _ _ _ H Hf) as [e [He Te]]. rewrite He. cbn.
+    eexists. split; [reflexivity|]. cbn [expr_typed]. rewrite Hg. exact Te.
+  - (* vec *)
+    destruct d; try discriminate H. cbn.
+    destruct (frag_get _ _ _ Hf) as [dx Hx]. rewrite Hx.
+    assert (Hall : forall x, In x l -> exists e, output_value T n t0 x = ROk e /\ expr_typed T g e t0 = true).
+    { intros x Hin. destruct l as [|y l]; [destruct Hin|].
+      apply rbind_ok in H. destruct H as [uu [Hu _]]. destruct uu.
+      destruct (each_ok_in _ _ _ _ Hu x Hin) as [k' Hk]. exact (IH _ _ _ Hk Hf). }
+    destruct (map_r_forall _ _ _ Hall) as [es [Hes [Pes _]]]. rewrite Hes. cbn.
+    eexists. split; [reflexivity|]. exact (typed_vec T g t t0 es Hg Pes).
+  - (* set *)
+    destruct d; try discriminate H. cbn.
+    destruct (frag_get _ _ _ Hf) as [dx Hx]. rewrite Hx.
+    assert (Hall : forall x, In x l -> exists e, output_value T n t0 x = ROk e /\ expr_typed T g e t0 = true).
+    { intros x Hin. destruct l as [|y l]; [destruct Hin|]. rewrite Hx in H.
+      apply rbind_ok in H. destruct H as [uu [Hu _]]. destruct uu.
+      destruct (v_set_elems_in _ _ _ Hu x Hin) as [k' Hk]. exact (IH _ _ _ Hk Hf). }
+    destruct (map_r_forall _ _ _ Hall) as [es [Hes [Pes _]]]. rewrite Hes. cbn.
+    eexists. split; [reflexivity|]. exact (typed_set T g t t0 es Hg Pes).
+  - (* array *)
+    destruct d; try discriminate H. cbn.
+    destruct (N.of_nat (length l) =? n0) eqn:El; [|discriminate H]. cbn [negb] in H.
+    destruct (frag_get _ _ _ Hf) as [dx Hx]. rewrite Hx in H |- *.
+    assert (Hall : forall x, In x l -> exists e, output_value T n t0 x = ROk e /\ expr_typed T g e t0 = true).
+    { intros x Hin. apply rbind_ok in H. destruct H as [uu [Hu _]]. destruct uu.
+      destruct (each_ok_in _ _ _ _ Hu x Hin) as [k' Hk]. exact (IH _ _ _ Hk Hf). }
+    destruct (map_r_forall _ _ _ Hall) as [es [Hes [Pes Hl]]]. rewrite Hes. cbn.
+    eexists. split; [reflexivity|]. apply N.eqb_eq in El.
+    refine (typed_array T g t t0 n0 es Hg _ Pes). rewrite Hl. exact El.
+  - (* tuple *)
+    unfold v_tuple in H. unfold o_tuple.
+    apply rbind_ok in H. destruct H as [arr [Ha H]]. rewrite Ha. cbn.
+    destruct (Nat.eqb (length arr) (length ts)) eqn:El; [|discriminate H]. cbn [negb] in H |- *.
+    apply rbind_ok in H. destruct H as [b [Hb H]]. destruct b; [|discriminate H].
+    apply Nat.eqb_eq in El.
+    destruct (map_r_forall2 (fun x e => expr_typed T g e x = true) (output_value T n) ts arr El) as [es [Hes Pes]].
+    { intros p Hin. destruct (all_is_ok_true_in _ _ _ _ Hb p Hin) as [k' Hk]. destruct p as [t1 x1].
+      exact (IH _ _ _ Hk (in_combine_forallb _ _ _ (t1, x1) Hf Hin)). }
+    rewrite Hes. cbn. eexists. split; [reflexivity|]. exact (typed_tuple T g t ts es Hg Pes).
+  - (* unit *) destruct d; try discriminate H. eexists. split; [reflexivity|]. cbn [expr_typed]. rewrite Hg. reflexivity.
+  - (* boolean *) destruct d; try discriminate H. eexists. split; [reflexivity|]. cbn [expr_typed]. rewrite Hg. reflexivity.
+  - (* integer *)
+    destruct (integer_fits name d) eqn:Ef; [|discriminate H]. cbn [negb] in H.
+    destruct d; try (cbn in H; discriminate H). cbn [is_number negb].
+    unfold known_int in Hf. apply existsb_exists in Hf. destruct Hf as [x [Hin Hx]].
+    apply ustr_eqb_eq in Hx. subst x.
+    assert (Hs : as_u64 (JInt z) <> None \/ as_i64 (JInt z) <> None).
+    { revert H. destruct (as_u64 (JInt z)); [intros _; left; discriminate|].
+      destruct (as_i64 (JInt z)); [intros _; right; discriminate|]. intro H; discriminate H. }
+    pose proof (known_int_lit name Hin z Hs Ef) as Hl. unfold int_lit_ok in Hl.
+    destruct (is_nonzero_name name) eqn:En.
+    + apply andb_true_iff in Hl. destruct Hl as [Hl _].
+      eexists. split; [reflexivity|]. cbn [expr_typed]. rewrite Hg, ustr_eqb_refl, En, Hl. reflexivity.
+    + eexists. split; [reflexivity|]. cbn [expr_typed]. rewrite Hg, ustr_eqb_refl, En, Hl. reflexivity.
+  - (* float *)
+    apply negb_true_iff in Hf.
+    revert H. destruct (is_number d) eqn:En; intro H; [|discriminate H]. cbn [negb]. rewrite Hf.
+    eexists. split; [reflexivity|]. cbn [expr_typed]. rewrite Hg, ustr_eqb_refl, En. reflexivity.
+  - (* string *) destruct d; try discriminate H. eexists. split; [reflexivity|]. cbn [expr_typed]. rewrite Hg. reflexivity.
+Qed.
+
+(* ------------------------------------------------------------------ exactness on the scalar kinds *)
+Definition scalar_det (d : details) : bool :=
+  match d with
+  | DBoolean | DString | DUnit => true
+  | DFloat n => negb (is_nonzero_name n)
+  | DInteger n => known_int n
+  | _ => false
+  end.
+
+Lemma scalar_exact : forall re T f t det d k,
+  get_det T t = Some det -> scalar_det det = true ->
+  validate_value re T (S f) t d = ROk k ->
+  exists e r, output_value T (S f) t d = ROk e /\ eval_expr T e = Some r /\ approx d r = true.
+Proof.
+  intros re T f t det d k Hg Hs Hv. cbn [validate_value] in Hv. rewrite Hg in Hv.
   cbn [output_value]. rewrite Hg.
-  destruct det; try discriminate Hs; cbn [validate_det] in Hv; cbn [output_det].
-  - (* unit *) destruct d; try discriminate Hv. exists EUnit, JNull. cbn. rewrite Hg. repeat split; reflexivity.
-  - (* boolean *) destruct d; try discriminate Hv. exists (EBool b), (JBool b). cbn. rewrite Hg.
+  destruct det; try discriminate Hs; cbn [validate_det] in Hv; cbn [output_det]; cbn [scalar_det] in Hs.
+  - (* unit *) destruct d; try discriminate Hv. exists EUnit, JNull. repeat split; reflexivity.
+  - (* boolean *) destruct d; try discriminate Hv. exists (EBool b), (JBool b).
     repeat split; try reflexivity. destruct b; reflexivity.
   - (* integer *)
-    destruct d; cbn in Hv; try discriminate Hv.
-    cbn [is_number negb]. cbn [int_fits] in Hi.
+    destruct (integer_fits name d) eqn:Ef; [|discriminate Hv]. cbn [negb] in Hv.
+    destruct d; try (cbn in Hv; discriminate Hv). cbn [is_number negb].
+    unfold known_int in Hs. apply existsb_exists in Hs. destruct Hs as [x [Hin Hx]].
+    apply ustr_eqb_eq in Hx. subst x.
+    assert (Hs : as_u64 (JInt z) <> None \/ as_i64 (JInt z) <> None).
+    { revert Hv. destruct (as_u64 (JInt z)); [intros _; left; discriminate|].
+      destruct (as_i64 (JInt z)); [intros _; right; discriminate|]. intro Hv; discriminate Hv. }
+    pose proof (known_int_lit name Hin z Hs Ef) as Hl. unfold int_lit_ok in Hl.
     destruct (is_nonzero_name name) eqn:En.
-    + apply andb_true_iff in Hi. destruct Hi as [Ha Hz].
-      exists (ENonZero name (JInt z)), (JInt z). cbn [expr_typed eval_expr]. rewrite Hg, En, Ha, ustr_eqb_refl.
-      apply negb_true_iff in Hz. rewrite Hz. repeat split; try reflexivity.
-      cbn. apply Z.eqb_refl.
-    + exists (ENum (JInt z) name), (JInt z). cbn [expr_typed eval_expr]. rewrite Hg, En, Hi, ustr_eqb_refl.
+    + apply andb_true_iff in Hl. destruct Hl as [_ Hz]. apply negb_true_iff in Hz.
+      exists (ENonZero name (JInt z)), (JInt z). cbn [eval_expr is_zero_number]. rewrite Hz.
       repeat split; try reflexivity. cbn. apply Z.eqb_refl.
+    + exists (ENum (JInt z) name), (JInt z). repeat split; try reflexivity. cbn. apply Z.eqb_refl.
   - (* float *)
-    cbn [int_fits] in Hi. apply negb_true_iff in Hi.
-    revert Hv. destruct (is_number d) eqn:En; intro Hv; [|discriminate Hv]. cbn [negb]. rewrite Hi.
-    exists (ENum d name), d. cbn [expr_typed eval_expr]. rewrite Hg, En, ustr_eqb_refl.
-    repeat split; try reflexivity.
+    apply negb_true_iff in Hs.
+    revert Hv. destruct (is_number d) eqn:En; intro Hv; [|discriminate Hv]. cbn [negb]. rewrite Hs.
+    exists (ENum d name), d. repeat split; try reflexivity.
     destruct d; try discriminate En; cbn; [apply Z.eqb_refl|apply Qeq_bool_iff; reflexivity].
-  - (* string *) destruct d; try discriminate Hv. exists (EStr s), (JStr s). cbn. rewrite Hg.
-    repeat split; try reflexivity. apply ustr_eqb_refl.
+  - (* string *) destruct d; try discriminate Hv. exists (EStr s), (JStr s).
+    repeat split; try reflexivity. cbn. apply ustr_eqb_refl.
 Qed.
